@@ -17,10 +17,10 @@ VERIF = os.path.dirname(os.path.dirname(os.path.abspath(__file__)))
 REPO = os.environ.get("VERIF_REPO", "/repo")
 SRC = os.path.join(REPO, "src")
 BLF = os.path.join(SRC, "Vector", "BLF")
-WORK = os.path.join(VERIF, ".work")
+WORK = os.environ.get("VERIF_WORK", os.path.join(VERIF, ".work"))
 SPEC = os.path.join(VERIF, "spec")
 HARNESS = os.path.join(VERIF, "harness")
-EVID = os.path.join(VERIF, "evidence")
+EVID = os.environ.get("VERIF_EVID", os.path.join(VERIF, "evidence"))
 TLA_JAR = "/opt/veriftools/tla/tla2tools.jar:/opt/veriftools/tla/CommunityModules-deps.jar"
 NCPU = os.cpu_count() or 4
 
@@ -248,6 +248,19 @@ def run_tlc(module, cfg, name, workers=None, timeout=600, simulate=None, depth=N
                 cov[m.group(1)] = [int(m.group(2)), int(m.group(3))]
     res["lines"] = lines
     res["coverage"] = cov
+    # the edge log can be hundreds of MB: keep only TLC's own messages on disk
+    try:
+        if os.path.getsize(outp) > (20 << 20):
+            keep = []
+            with open(outp, errors="replace") as f:
+                for ln in f:
+                    if not ln.startswith('"{'):
+                        keep.append(ln)
+            with open(outp, "w") as f:
+                f.writelines(keep[-5000:])
+    except OSError:
+        pass
+    shutil.rmtree(os.path.join(wdir, "md"), ignore_errors=True)
     res["ok"] = (rc == 0 and res["violated"] is None)
     return res
 
@@ -401,6 +414,7 @@ class Report:
         self.assumptions = []
         kf = known_findings()
         self.known = [k for k in kf.get("known", []) if k["property"] == pid]
+        shutil.rmtree(os.path.join(EVID, "replays", pid), ignore_errors=True)
 
     def violation(self, key, text, replay_obj=None):
         for k in self.known:
@@ -515,4 +529,6 @@ def replay_paths(exe, paths, fmt_action, name, nproc=None, timeout=900, extra_ar
                     agg["first"] = dict(r["first"], file=fn)
             if rc != 0:
                 agg["crashed"].append(dict(file=fn, rc=rc, stderr=err[-1500:]))
+    if not agg["mismatches"] and not agg["crashed"]:
+        shutil.rmtree(d, ignore_errors=True)       # path files are only kept when something has to be looked at
     return agg
